@@ -244,7 +244,7 @@ func ParseStreamCallback variant walk
   // the frame is the callback's: besides objects the parse allocates itself only the reporters' state changes
   modifies captured(callback, t), captured(callback, ok), captured(callback, ln)
   modifies heap(shared.TreeNode), maps(string, *shared.TreeNode), heap(balance.balanceSingleReporter), arrays(float64), maps(string, shared.AccValues), maps(string, bool), maps(string, float64)
-  modifies ghost(cbLen, cbErr, cbNode, cbStop, cbRet, cbLineNo, cbLine, cbHeader, cbElems, cbNElems, scRd, scPos, privLo, evOf, accKey, accP, accN, accH, bufSticky, sinkFailed, sinkPend, prLen, prSink, prArg, prArgs, csvLen, csvW, csvN, csvRow, tnodes, tdepth, tmax, tmapOf, jlen, tvLen, tv, tseg, tvSet, adLen, adName, adVal, adSep, adRoot, procLen, procTime, procSrc, evLine, procOf, evOfProc)
+  modifies ghost(cbLen, cbErr, cbNode, cbStop, cbRet, cbLineNo, cbLine, cbHeader, cbElems, cbNElems, scRd, scPos, privLo, evOf, accKey, accP, accN, accH, bufSticky, sinkFailed, sinkPend, prLen, prSink, prArg, prArgs, prFmt, csvLen, csvW, csvN, csvRow, tnodes, tdepth, tmax, tmapOf, jlen, tvLen, tv, tseg, tvSet, adLen, adName, adVal, adSep, adRoot, procLen, procTime, procSrc, evLine, procOf, evOfProc)
   let R := captured(callback, r)
   let DF := captured(callback, dateFormat)
   let B := RepBuf(captured(callback, r))
@@ -390,7 +390,7 @@ func ParseStreamCallback variant lint
   props C08 C09 C10
   let out := payload(captured(callback, lc).ReporterConfig.Output)
   modifies captured(callback, errorsFound), captured(callback, writeErr)
-  modifies ghost(cbLen, cbErr, cbNode, cbStop, cbRet, cbLineNo, cbLine, cbHeader, cbElems, cbNElems, scRd, scPos, privLo, evOf, prOf, evOfPr, bufSticky, sinkFailed, sinkPend, prLen, prSink, prArg, prArgs)
+  modifies ghost(cbLen, cbErr, cbNode, cbStop, cbRet, cbLineNo, cbLine, cbHeader, cbElems, cbNElems, scRd, scPos, privLo, evOf, prOf, evOfPr, bufSticky, sinkFailed, sinkPend, prLen, prSink, prArg, prArgs, prFmt)
   ensures @lc [C09] captured(callback, lc) == old(captured(callback, lc))
   ensures @printed-once [C09] forall j int :: {cbErr[j]} old(cbLen) <= j && j < cbLen && cbErr[j] != nil ==> old(prLen) <= prOf[j] && prOf[j] < prLen && prArg[prOf[j]] == cbErr[j] && prSink[prOf[j]] == out && evOfPr[prOf[j]] == j
   ensures @only-errors [C09] forall k int :: {prArg[k]} old(prLen) <= k && k < prLen ==> old(cbLen) <= evOfPr[k] && evOfPr[k] < cbLen && cbErr[evOfPr[k]] != nil && prOf[evOfPr[k]] == k && !typeis(prArg[k], "string")
